@@ -12,7 +12,9 @@ RULE = (
     "keyword, keyword order. Exhaustive part: all ordered pairs of patterns of the pattern universe x typed (key equivalence), "
     "all histories of length <= L over 3 keys x {ok, fail, discard, clear} x maxsize {1,2,3} with cache_info after every op; then "
     "seeded random histories. Every case runs the real asyncstdlib cache (hand-driven) and the real functools.lru_cache around the "
-    "equivalent plain function; cache_discard (absent from functools) is checked by probing replays of the real cache. "
+    "equivalent plain function; cache_discard (absent from functools) is checked by probing replays of the real cache, and what "
+    "follows a discard is compared with functools' pure-Python algorithm plus 'remove exactly that entry' (itself compared "
+    "with the real functools on every case up to that point). "
     "non-trivial = at least one hit and one miss; distinct by case content"
 )
 EXHAUSTIVE = {"quick": True, "thorough": True}
@@ -88,6 +90,70 @@ UNIVERSE = (
 
 
 # ---------------------------------------------------------------------------------------------
+# functools.lru_cache plus cache_discard: the pure-Python algorithm of Lib/functools.py over an ordered dict, keyed by
+# CPython's own functools._make_key.  It is compared with the real functools.lru_cache on every case up to the
+# first discard of a held entry (edge B'), and is the reference for what follows that discard: "exactly that entry
+# removed", everything else as functools.
+
+import collections
+
+
+class _RefMod:
+    """stands in for the `functools` module: lru_cache / cache with the same decorator forms"""
+
+    @staticmethod
+    def cache(fn):
+        return _RefMod.lru_cache(maxsize=None)(fn)
+
+    @staticmethod
+    def lru_cache(maxsize=128, typed=False):
+        if isinstance(maxsize, int):
+            if maxsize < 0:
+                maxsize = 0
+        elif callable(maxsize) and isinstance(typed, bool):
+            return _ref_wrap(maxsize, 128, False)
+        elif maxsize is not None:
+            raise TypeError("Expected first argument to be an integer, a callable, or None")
+        return lambda fn: _ref_wrap(fn, maxsize, typed)
+
+
+def _ref_wrap(fn, maxsize, typed):
+    store = collections.OrderedDict()    # oldest first
+    stat = {"hits": 0, "misses": 0}
+
+    def wrapper(*args, **kwds):
+        if maxsize == 0:
+            stat["misses"] += 1
+            return fn(*args, **kwds)
+        key = functools._make_key(args, kwds, typed)
+        if key in store:
+            stat["hits"] += 1
+            store.move_to_end(key)
+            return store[key]
+        stat["misses"] += 1
+        result = fn(*args, **kwds)
+        if key not in store:
+            store[key] = result
+            if maxsize is not None and len(store) > maxsize:
+                store.popitem(last=False)
+        return result
+
+    def cache_info():
+        return functools._CacheInfo(stat["hits"], stat["misses"], maxsize, len(store))
+
+    def cache_clear():
+        store.clear()
+        stat["hits"] = stat["misses"] = 0
+
+    def cache_discard(*args, **kwds):
+        store.pop(functools._make_key(args, kwds, typed), None)
+
+    wrapper.cache_info, wrapper.cache_clear, wrapper.cache_discard = cache_info, cache_clear, cache_discard
+    wrapper.cache_parameters = lambda: {"maxsize": maxsize, "typed": typed}
+    return wrapper
+
+
+# ---------------------------------------------------------------------------------------------
 # the real caches
 
 
@@ -116,7 +182,7 @@ class _Real:
                 if r[0] == "fail":
                     raise UserExc(r[1])
                 return r[1]
-            mod = functools
+            mod = functools if lib == "f" else _RefMod
         dec, form = case["dec"], case["form"]
         if form == "bare":
             cached = mod.lru_cache(fn)
@@ -146,11 +212,14 @@ class _Real:
     def handle(self, i=None):
         """the attribute through which user code reaches the cache"""
         self.n += 1
+        self.last_self = None
         if self.kind == "func":
             return self.cached
         if self.kind == "method":
-            return self.insts[i if i is not None else self.n % 3].m
+            self.last_self = self.insts[i if i is not None else self.n % 3]
+            return self.last_self.m
         if self.kind == "classmethod":
+            self.last_self = self.classes[self.n % 3 if i is None else i]
             if i is None:
                 return self.classes[self.n % 3].m
             return self.classes[i].m if self.n % 2 else self.classes[i]().m
@@ -194,6 +263,11 @@ class _Real:
             inst, pat = (op[1], op[2]) if tag == "mdiscard" else (None, op[1])
             args, kw = py_args(pat)
             if self.lib == "f":      # only replayed while functools does not hold the pattern: a no-op
+                return ["done"]
+            if self.lib == "r":      # a plain function is its own handle: the bound object is passed explicitly
+                self.handle(inst)
+                pre = () if self.last_self is None else (self.last_self,)
+                self.cached.cache_discard(*pre, *args, **kw)
                 return ["done"]
             r = self.handle(inst).cache_discard(*args, **kw)
             return ["done"] if r is None else ["exc", "returned", repr(r)]
@@ -251,6 +325,8 @@ def observe(case):
     ops = case["ops"]
     impl = _Real(case, "a")
     std = _Real(case, "f")
+    ref = _Real(case, "r")
+    oref = [ref.do(op) for op in ops]
     oi, os_, std_alive = [], [], True
     probes = []
     universe = []
@@ -278,7 +354,7 @@ def observe(case):
             continue
         oi.append(impl.do(op))
         os_.append(std.do(op) if std_alive else None)
-    return {"impl": oi, "std": os_, "probes": probes}
+    return {"impl": oi, "std": os_, "ref": oref, "probes": probes}
 
 
 def model_request(case):
@@ -305,6 +381,17 @@ def judge(case, obs, model):
         issues.append(Issue("oracle", {"first_diff_at_op": d, "op": case["ops"][d], "impl": impl[d], "functools": std[d],
                                        "impl_all": impl, "functools_all": std},
                             "differs-from-functools:%s:%s" % (kind, what)))
+    ref = obs["ref"]
+    kb = _first_diff(ref, std)
+    if kb is not None:
+        # the harness's own reference disagrees with the real functools where functools is defined: machinery error
+        issues.append(Issue("B", {"first_diff_at_op": kb, "functools": std, "python_reference": ref}))
+    elif not issues and any(x is None for x in std):
+        d = next((i for i, (x, y, z) in enumerate(zip(impl, ref, std)) if z is None and x != y), None)
+        if d is not None:
+            issues.append(Issue("oracle", {"first_diff_at_op": d, "op": case["ops"][d], "impl": impl[d],
+                                           "functools_with_the_entry_removed": ref[d], "impl_all": impl, "reference_all": ref},
+                                "differs-from-functools-after-discard:%s:%s-vs-%s" % (case["ops"][d][0], impl[d][0], ref[d][0])))
     for pr in obs["probes"]:
         exp_post = [c and not s for c, s in zip(pr["pre"], pr["same"])]
         hit = any(c and s for c, s in zip(pr["pre"], pr["same"]))
